@@ -159,7 +159,8 @@ package replicator
 //@   ensures !fetched ==> !(h in r.tasks)
 //@   ensures forall x V_cid_Cid :: x != h ==> (x in r.tasks) == old(x in r.tasks) && r.tasks[x] == old(r.tasks[x])
 //@   ensures r.taskInProgress == old(r.taskInProgress) - 1
-//@   modifies r.taskInProgress, mapof(r.tasks), cell(r.queue, "Slice<Iface>"), r.buffer, evCount(r.emitters.evtLoadEnd), evLast(r.emitters.evtLoadEnd)
+//@   ensures semHeld(r.sem) == old(semHeld(r.sem)) - 1
+//@   modifies r.taskInProgress, mapof(r.tasks), cell(r.queue, "Slice<Iface>"), r.buffer, evCount(r.emitters.evtLoadEnd), evLast(r.emitters.evtLoadEnd), semHeld(r.sem)
 
 // waitForProcessSlot: with a slot the first queued item is taken and marked fetching; without one (cancelled
 // context) the process still releases one queued item and forgets its hash.
@@ -172,7 +173,9 @@ package replicator
 //@   ensures len(deref(r.queue)) == len(Q0) - 1 && (forall j Int :: 0 <= j && j < len(deref(r.queue)) ==> deref(r.queue)[j] == Q0[j + 1])
 //@   ensures err == nil ==> e == Q0[0] && (itemHash(Q0[0]) in r.tasks) && r.tasks[itemHash(Q0[0])] == stateFetching && r.taskInProgress == old(r.taskInProgress) + 1
 //@   ensures err != nil ==> !(itemHash(Q0[0]) in r.tasks) && r.taskInProgress == old(r.taskInProgress)
-//@   modifies r.taskInProgress, mapof(r.tasks), cell(r.queue, "Slice<Iface>"), r.buffer, evCount(r.emitters.evtLoadEnd), evLast(r.emitters.evtLoadEnd)
+//@   ensures err == nil ==> semHeld(r.sem) == old(semHeld(r.sem)) + 1
+//@   ensures err != nil ==> semHeld(r.sem) == old(semHeld(r.sem))
+//@   modifies r.taskInProgress, mapof(r.tasks), cell(r.queue, "Slice<Iface>"), r.buffer, evCount(r.emitters.evtLoadEnd), evLast(r.emitters.evtLoadEnd), semHeld(r.sem)
 
 // processItems (fetch + queue the ancestors): body not verified here (goroutines, dependency fetch); only its
 // frame and the ghost record of its outcome are assumed.
@@ -188,7 +191,11 @@ package replicator
 //@   flag nilcalls
 //@   requires r.queue != nil && r.tasks != nil && r.sem != nil && r.emitters.evtLoadEnd != nil && r.logger != nil
 //@   requires len(deref(r.queue)) > 0 && (forall j Int :: 0 <= j && j < len(deref(r.queue)) ==> deref(r.queue)[j] != nil)
+//@   ghost Q0 := deref(r.queue)
+//@   ghost H0 := semHeld(r.sem)
 //@   assert @ before call r.processEntryDone#1: fetched == (lastItemsErr(r) == nil) && e != nil
+//@   ensures result != nil ==> len(deref(r.queue)) == len(Q0) - 1 && !(itemHash(Q0[0]) in r.tasks)
+//@   ensures semHeld(r.sem) == H0
 
 // ---- C04 C10 C11: one fetched hash = one buffered log, fetched by content address for this database ----
 //@ spec func stAC(s Iface) Iface
